@@ -223,7 +223,7 @@ impl Prop for C15 {
         "C15"
     }
     fn rule(&self) -> String {
-        "case = ((piece family, operator) uniform over the 28 combinations whose trait bounds are satisfiable: {Segment*s, Segment*=s, (&mut Segment)*=s, Segment::translate, Piecewise*s, Piecewise*=s, -Piecewise, Piecewise::translate} x {PolyK, Log<PolyK>, IntOfLog<PolyK>, IntOfLogPoly4} minus MulAssign on IntOfLogPoly4 and Neg on Log; degree 0..=8; 0..=12 breakpoints from the lattice generator (Segment-level operators are applied to every segment of the list); pool of pairwise distinct finite numbers, piece j = pool rotated by 3j (1 case in 4: constant or period-3 pool, so that adjacent pieces are IDENTICAL functions - a step function with a plateau); scalar as in C14). Oracle: number of pieces, order and every end bit-identical; piece i of the result has exactly the numbers of the same operator applied to piece i alone, and exactly the numbers obtained by scaling / negating / translating the input piece number by number with plain f64 operations. Breakpoints are usually sorted, 1 in 10 lists are long (up to 40), 1 in 10 are in arbitrary order. Non-trivial: >=2 pieces.".into()
+        "case = ((piece family, operator) uniform over the 28 combinations whose trait bounds are satisfiable: {Segment*s, Segment*=s, (&mut Segment)*=s, Segment::translate, Piecewise*s, Piecewise*=s, -Piecewise, Piecewise::translate} x {PolyK, Log<PolyK>, IntOfLog<PolyK>, IntOfLogPoly4} minus MulAssign on IntOfLogPoly4 and Neg on Log; degree 0..=8; 1..=12 breakpoints from the lattice generator (Segment-level operators are applied to every segment of the list); pool of pairwise distinct finite numbers, piece j = pool rotated by 3j (1 case in 4: constant or period-3 pool, so that adjacent pieces are IDENTICAL functions - a step function with a plateau); scalar as in C14). Oracle: number of pieces, order and every end bit-identical; piece i of the result has exactly the numbers of the same operator applied to piece i alone, and exactly the numbers obtained by scaling / negating / translating the input piece number by number with plain f64 operations. Breakpoints are usually sorted, 1 in 10 lists are long (up to 40), 1 in 10 are in arbitrary order. Non-trivial: >=2 pieces.".into()
     }
     fn cases(&self, tier: Tier) -> u64 {
         tier.pick(1_000_000, 10_000_000)
@@ -235,8 +235,7 @@ impl Prop for C15 {
             2 => gen::any_finite(),
         ];
         let ends = prop_oneof![
-            1 => Just(Vec::new()),
-            8 => gen::ends_long(12, 40, false),
+            9 => gen::ends_long(12, 40, false),
             1 => (gen::ends(12, false), any::<u64>()).prop_map(|(mut e, r)| { let n = e.len(); for i in 0..n { e.swap(i, ((r >> (i % 48)) as usize + i * 7) % n); } e }),
         ];
         let pools = prop_oneof![6 => gen::distinct_numbers(13), 1 => gen::any_finite().prop_map(|c| vec![c; 13]), 1 => gen::distinct_numbers(3).prop_map(|v| (0..13).map(|i| v[i % 3]).collect::<Vec<f64>>())];
@@ -266,6 +265,9 @@ impl Prop for C15 {
         let ends: Vec<f64> = case.ends.iter().map(|b| b.0).collect();
         let pool: Vec<f64> = case.pool.iter().map(|b| b.0).collect();
         let s = case.s.0;
+        if ends.is_empty() {
+            return Outcome::Skip("zero pieces: the property quantifies over 1..n pieces");
+        }
         if pool.len() < 11 || pool.iter().any(|v| !v.is_finite()) || !s.is_finite() || ends.iter().any(|e| e.is_nan()) {
             return Outcome::Skip("malformed case");
         }
@@ -350,6 +352,9 @@ fn check_polyn(case: &Case, ctx: &mut Ctx) -> Outcome {
     let piecewise_level = case.op == P_TRANSLATE;
     ctx.label(FAM_NAMES[4]);
     ctx.label(if piecewise_level { OP_NAMES[P_TRANSLATE as usize] } else { OP_NAMES[S_TRANSLATE as usize] });
+    if ends.is_empty() {
+        return Outcome::Skip("zero pieces: the property quantifies over 1..n pieces");
+    }
     ctx.nontrivial = ends.len() >= 2;
     let piece = |j: usize| -> Vec<f64> {
         let len = (j * 5 + case.deg as usize) % 7; // 0..=6 coefficients, empty included
